@@ -52,6 +52,8 @@ PATH_STYLES = [
     dict(name="lower kw + comment", q='"', absolute=False, sub=False, kw="include", trail=" # included here"),
     dict(name="mixed kw + sq + subdir + comment", q="'", absolute=False, sub=True, kw="Include", trail="   # c"),
     dict(name="absolute subdir bare", q="", absolute=True, sub=True, kw="INCLUDE", trail=""),
+    dict(name="tab separator", q='"', absolute=False, sub=False, kw="INCLUDE", trail="", sep="\t"),
+    dict(name="tabs and spaces + sq", q="'", absolute=False, sub=True, kw="include", trail="\t# c", sep=" \t  "),
 ]
 
 
@@ -72,7 +74,7 @@ class Files:
     def ref(self, rel):
         p = os.path.join(self.root_dir, rel) if self.style["absolute"] else rel
         st = self.style
-        return "%s %s%s%s%s" % (st["kw"], st["q"], p, st["q"], st["trail"])
+        return "%s%s%s%s%s%s" % (st["kw"], st.get("sep", " "), st["q"], p, st["q"], st["trail"])
 
     def write(self):
         for rel, text in self.files.items():
@@ -352,7 +354,7 @@ def run_shared(res):
     def body(root_dir, elsewhere):
         for style in PATH_STYLES:
             for nl in ("\n", "\r\n"):
-                for shape in ("siblings", "diamond", "two_depths", "thrice"):
+                for shape in ("siblings", "diamond", "two_depths", "thrice", "shallow_then_deep", "name_collision"):
                     clean_dir(root_dir)
                     files = Files(root_dir, style, nl)
                     common, a, b = files.new_name(), files.new_name(), files.new_name()
@@ -369,6 +371,26 @@ def run_shared(res):
                         files.files[b] = nl.join(["  " + files.ref(common), '  SYMBOLSET "b"']) + nl
                         root = ["MAP", "  " + files.ref(a), "  " + files.ref(b), "END"]
                         flat = ["MAP", '  FONTSET "a"'] + common_lines + common_lines + ['  SYMBOLSET "b"', "END"]
+                    elif shape == "shallow_then_deep":
+                        # 'common' has a sub-chain of two files; it is included at level 1 and again at level 4:
+                        # the second time its sub-chain reaches level 6, which must raise
+                        s1, s2, c1, c2 = files.new_name(), files.new_name(), files.new_name(), files.new_name()
+                        files.files[s2] = '  FONTSET "s2"' + nl
+                        files.files[s1] = "  " + files.ref(s2) + nl
+                        files.files[common] = nl.join(common_lines + ["  " + files.ref(s1)]) + nl
+                        files.files[c2] = "  " + files.ref(common) + nl
+                        files.files[c1] = "  " + files.ref(c2) + nl
+                        files.files[b] = "  " + files.ref(c1) + nl
+                        root = ["MAP", "  " + files.ref(common), "  " + files.ref(b), "END"]
+                        flat = None
+                    elif shape == "name_collision":
+                        # the same relative name next to the including file and next to the root: the root's directory decides
+                        files.files["style.map"] = '  SHAPEPATH "root style"' + nl
+                        files.files["layers/style.map"] = '  SHAPEPATH "layers style"' + nl
+                        inner = "%s%s%s%s%s" % (style["kw"], style.get("sep", " "), style["q"], "style.map", style["q"])
+                        files.files["layers/l.map"] = nl.join(['  FONTSET "l"', "  " + inner]) + nl
+                        root = ["MAP", "  " + files.ref("layers/l.map"), "END"]
+                        flat = ["MAP", '  FONTSET "l"', '  SHAPEPATH "root style"', "END"]
                     else:
                         files.files[a] = nl.join(["  " + files.ref(common), '  FONTSET "a"']) + nl
                         root = ["MAP", "  " + files.ref(common), "  " + files.ref(a), "END"]
@@ -376,17 +398,17 @@ def run_shared(res):
                     root_text = nl.join(root) + nl
                     files.files["root.map"] = root_text
                     files.write()
-                    want = ("ok", D.typed(impl.loads(nl.join(flat) + nl, expand_includes=False)))
+                    want = ("ok", D.typed(impl.loads(nl.join(flat) + nl, expand_includes=False))) if flat else None
                     for entry in entries():
                         got = run_entry(entry, os.path.join(root_dir, "root.map"), root_text, root_dir, elsewhere, False)
                         res["evals"] += 1
-                        if got == want:
+                        if (got == want) if want else (got[0] == "exc"):
                             R.add_outcome(res, "equals_substitution")
                             res["states"].add(R.h64((shape, style["name"], nl, entry)))
                         else:
                             R.add_outcome(res, "differs")
                             R.add_violation(res, "shared|%s|%s" % (shape, entry), "a file included more than once in an acyclic tree is not expanded by substitution: %s" % (
-                                str(got)[:160],), {"files": dict(files.files), "entry": entry, "flat": nl.join(flat) + nl}, None)
+                                str(got)[:160],), {"files": dict(files.files), "entry": entry, "flat": (nl.join(flat) + nl) if flat else None, "depth": 6 if not flat else 0}, None)
 
     with_scratch(body)
     R.add_sub(res, "one file included several times (siblings, diamond, two depths)", res["evals"])
@@ -458,7 +480,7 @@ def replay(case):
             with open(p, "w", encoding="utf-8", newline="") as f:
                 f.write(text)
         got = run_entry(case["entry"], os.path.join(root_dir, "root.map"), case["files"]["root.map"], root_dir, elsewhere, True)
-        if "flat" in case:
+        if case.get("flat"):
             want = ("ok", D.typed(impl.loads(case["flat"], expand_includes=False)))
             return None if got == want else {"got": str(got)[:500]}
         if "depth" in case:
